@@ -60,7 +60,8 @@ def gen(ctx: common.Ctx, n_hist: int, steps: tuple[int, int], explore: bool = Fa
         follow = "normal" if explore else r.choice(["normal", "normal", "error", "skip"])
         stream = "safe" if explore else ("content" if k % 3 else "structure")
         h = histgen.history((*tag, k), n_steps=n, n_modules=r.randint(3, 7), cycles=not explore,
-                            ops=SAFE_OPS if explore else (histgen.CONTENT_OPS if stream == "content" else None))
+                            ops=SAFE_OPS if explore else (histgen.CONTENT_OPS if stream == "content" else None),
+                            packages=not explore, import_forms=["import", "from", "fromas"] if explore else None)
         modes = ["check"] + [r.choice(["check", "recheck", "recheck"] + (["recheck-explicit"] if follow != "normal" else []))
                              for _ in range(n - 1)]
         flags = [] if follow == "normal" else [f"--follow-imports={follow}"]
